@@ -277,6 +277,55 @@ def _note_killed(meta, info):
         pass
 
 
+def run_fuzz(prop, fz, seed, work):
+    """atheris/libFuzzer campaign: `procs` independent processes (libFuzzer is single-core), each with its own
+    fresh corpus directory and seed, -runs bounded; the semantic oracle lives inside the target script, which
+    writes a JSON replay and exits non-zero on a violation.  A process that dies without a replay file is a
+    harness problem of that process (counted), not a violation."""
+    import subprocess
+    nproc = int(fz.get("procs", 8))
+    runs = int(os.environ.get("VERIF_FUZZ_RUNS", fz["runs"])) // nproc
+    script = os.path.join(VERIF, fz["script"])
+    envv = dict(os.environ, PYTHONPATH=os.pathsep.join([env.DEPS, os.environ.get("PYTHONPATH", "")]))
+    procs = []
+    for i in range(nproc):
+        d = os.path.join(work, "fuzz%d" % i)
+        os.makedirs(os.path.join(d, "corpus"))
+        out = os.path.join(d, "violation.json")
+        log = open(os.path.join(d, "log"), "w")
+        p = subprocess.Popen([sys.executable, script, os.path.join(d, "corpus"), out, "-runs=%d" % runs,
+                              "-seed=%d" % (derive(seed, prop.ID, "fuzz", i) % (2 ** 31 - 1) + 1), "-max_len=%d" % fz.get("max_len", 64)],
+                             cwd=d, env=envv, stdout=log, stderr=subprocess.STDOUT)
+        procs.append((p, d, out))
+    info = {"processes": nproc, "runs_per_process": runs, "done_runs": 0, "corpus_units": 0, "died": 0, "violations": []}
+    deadline = time.time() + fz.get("budget_s", 3600)
+    for p, d, out in procs:
+        try:
+            p.wait(timeout=max(1, deadline - time.time()))
+        except subprocess.TimeoutExpired:
+            p.kill()
+            info["died"] += 1
+            continue
+        try:
+            txt = open(os.path.join(d, "log"), errors="replace").read()
+        except OSError:
+            txt = ""
+        import re as _re
+        m = _re.search(r"Done (\d+) runs", txt)
+        if m:
+            info["done_runs"] += int(m.group(1))
+        info["corpus_units"] += len(os.listdir(os.path.join(d, "corpus")))
+        if os.path.exists(out):
+            with open(out) as f:
+                data = json.load(f)
+            sig = "fuzz:" + data["violation"]["sig"]
+            rp = write_replay(prop, sig, {"case": data["case"], "violation": data["violation"]}, len(info["violations"]))
+            info["violations"].append((sig, rp))
+        elif p.returncode != 0:
+            info["died"] += 1
+    return info
+
+
 def write_replay(prop, sig, fc, idx):
     d = os.path.join(VERIF, "replays")
     os.makedirs(d, exist_ok=True)
@@ -367,6 +416,13 @@ def main(prop_name, tier, replay=None):
         if meta["worker_crash"] > 3:
             print("HARNESS-ERROR: %d worker crashes" % meta["worker_crash"], file=sys.stderr)
             return 2
+        # 3b. coverage-guided byte-level campaign (thorough tier, properties that define FUZZ)
+        fuzz_info = None
+        fz = getattr(prop, "FUZZ", None)
+        if fz and (tier == "thorough" or os.environ.get("VERIF_FUZZ")):
+            fuzz_info = run_fuzz(prop, fz, seed, work)
+            for rp in fuzz_info.pop("violations"):
+                violations.append((rp[0], rp[1]))
         # 4. shrink (thorough only)
         if fails and tier == "thorough" and not os.environ.get("VERIF_NOSHRINK"):
             for sig in sorted(fails)[:3]:
@@ -417,6 +473,7 @@ def main(prop_name, tier, replay=None):
                 "corpus_replayed": n_corpus,
                 "known_findings_replayed": [{"id": e["id"], "still_fails": s} for e, s in known_lines],
                 "violation_signatures": sorted(set(s for s, _ in violations)),
+                "fuzz_campaign": fuzz_info,
             },
             "assumptions": list(getattr(prop, "ASSUMPTIONS", [])),
             "wall_s": round(time.time() - t0, 1),
